@@ -2,13 +2,17 @@ import AioslskVerif.Proofs.Track
 /-!
 # C15 — user tracking on the server mirrors the set of reasons to track
 
-Property theorems only (model: `Model/Track.lean` = the code **with** `fixes/C15-lost-call-in-exit-window.patch`
-and `fixes/C15-swallowed-cancel-on-close.patch`; helpers: `Proofs/Track.lean`).
+Property theorems only (model: `Model/Track.lean` = the code **with** `fixes/C15-lost-call-in-exit-window.patch`,
+`fixes/C15-swallowed-cancel-on-close.patch` and `fixes/C15-transfer-reason-kept-after-remove.patch`; helpers:
+`Proofs/Track.lean`).
 
 Every theorem quantifies over **all** op lists `ops` from the initial state, i.e. over every interleaving of
 calls (`track`/`untrack`, any user, any flags), worker steps with any network behaviour (`workerStep u env`),
 retry timers firing (never early), done-callbacks (`reap`), server closes and clock advances. Histories
 (`issued`, `processed`, `frames`, …) are per user and start again at every server close.
+The second half (`World`) adds the owners of the reasons — logins, the friends list, the transfer manager's
+cycles and transfers — and proves that what the tracking manager is asked for is what can be observed from
+outside, in particular again after a session loss.
 Time unit: tick = 1/1024 s.
 -/
 namespace AioslskVerif.C15
